@@ -81,6 +81,11 @@ case('norm', lambda o: np.linalg.norm(o.b), lambda o: np.linalg.norm(o.a, axis=1
 case('det', lambda o: np.linalg.det(o.Q), lambda o: np.linalg.det(o.M), lambda o: np.linalg.det(o.Q * o.s))
 case('inv', lambda o: np.linalg.inv(o.Q), lambda o: np.linalg.inv(o.M))
 case('diagonal', lambda o: np.diagonal(o.M), lambda o: np.diagonal(o.Q), lambda o: np.diagonal(o.T[:, :, :2], axis1=0, axis2=2), lambda o: np.diagonal(o.M, axis1=1, axis2=0))
+case('diagonal', lambda o: np.diagonal(o.M, offset=1), lambda o: np.diagonal(o.M, offset=-1), lambda o: np.diagonal(o.M, offset=1, axis1=1, axis2=0),
+     lambda o: np.diagonal(o.K, offset=1, axis1=2, axis2=1), lambda o: np.diagonal(o.K, offset=-1, axis1=2, axis2=0), lambda o: np.diagonal(o.F, offset=1, axis1=3, axis2=1))
+case('trace', lambda o: np.trace(o.M, offset=1), lambda o: np.trace(o.M, offset=-2), lambda o: np.trace(o.M, offset=1, axis1=1, axis2=0), lambda o: np.trace(o.K, offset=-1, axis1=2, axis2=1))     # non-square operands: nutils rejects diagonals of unequal axes when the array is built (a documented limitation, not a silent deviation)
+case('remainder', lambda o: (o.n * 0 + np.arange(4)) % np.array([5, 4, 2, 3]), lambda o: np.remainder(o.n * 0 + np.arange(4), np.array([5, 4, 2, 3]) + o.n * 0), lambda o: (o.n + np.arange(4)) % np.array([5, 4, 2, 3]), lambda o: o.i % np.array([2, 3, 7]), lambda o: (o.i + 1) % np.array([5, 2, 3]), lambda o: np.arange(3) % (o.i + 1))
+case('floor_divide', lambda o: (o.n * 0 + np.arange(4)) // np.array([5, 4, 2, 3]), lambda o: o.i // np.array([2, 3, 7]))
 case('einsum', lambda o: np.einsum('ij,j->i', o.a, o.b), lambda o: np.einsum('ij->ji', o.a), lambda o: np.einsum('ii', o.M), lambda o: np.einsum('ij,ij->', o.a, o.d), lambda o: np.einsum('i,j->ij', o.u, o.b), lambda o: np.einsum('ijk,kl->ilj', o.T, o.M), lambda o: np.einsum('ii->i', o.M), lambda o: np.einsum('ij,jk,kl->il', o.Q, o.a, o.M))
 case('cross', lambda o: np.cross(o.b, o.v), lambda o: np.cross(o.a, o.b), lambda o: np.cross(o.b[::-1], o.v))
 case('sinc', )   # no symbolic model of sinc(x, n): declined
